@@ -209,6 +209,56 @@ func (a *abox) info() string {
 	return fmt.Sprintf("(mkb %d %s %d %s %d)", a.ID, a.Kind, a.Flags, vlib.Z(a.Z), a.Vis)
 }
 
+// tags describe what the tree exercises (used by known-finding matchers and the distribution)
+func (a *abox) tags(t map[string]bool) {
+	pos, zauto := a.Flags&1 != 0, a.Flags&2 != 0
+	if pos {
+		t["positioned"] = true
+	}
+	switch {
+	case zauto:
+	case !pos:
+		t["static-z"] = true
+	case a.Z < 0:
+		t["neg-z"] = true
+	case a.Z == 0:
+		t["zero-z"] = true
+	default:
+		t["pos-z"] = true
+	}
+	if a.Flags&4 != 0 {
+		t["float"] = true
+	}
+	if a.Flags&8 != 0 {
+		t["opacity"] = true
+	}
+	if a.Flags&16 != 0 {
+		t["transform"] = true
+	}
+	if a.Flags&32 != 0 {
+		t["overflow"] = true
+		if !pos {
+			t["static-overflow"] = true
+		}
+	}
+	switch a.Kind {
+	case "KInlineBlock":
+		t["inline-block"] = true
+	case "KInlineFlex":
+		t["inline-flex"] = true
+	case "KFlex":
+		t["flex"] = true
+	case "KMargin":
+		t["margin-box"] = true
+	}
+	if a.Vis&8 != 0 {
+		t["outline"] = true
+	}
+	for _, k := range a.Kids {
+		k.tags(t)
+	}
+}
+
 func (a *abox) dump(sb *strings.Builder, depth int) {
 	fmt.Fprintf(sb, "%s%d %s", strings.Repeat(" ", depth), a.ID, a.Kind[1:])
 	if a.Flags&1 != 0 {
@@ -508,7 +558,14 @@ func runDocument(html string) docResult {
 				p.canvasK = (code - codeBase) / 4
 			}
 		}
+		tagSet := map[string]bool{}
+		for _, r := range roots {
+			r.tags(tagSet)
+		}
 		var tags []string
+		for t := range tagSet {
+			tags = append(tags, t)
+		}
 		noclip := false
 		for r, ids := range p.clipRects {
 			if len(ids) > 1 || p.bgRects[r] {
@@ -647,7 +704,14 @@ func main() {
 			continue
 		}
 		for pi, p := range r.Pages {
-			tags := append(append([]string{}, j.tags...), p.Tags...)
+			seen := map[string]bool{}
+			var tags []string
+			for _, t := range append(append([]string{}, j.tags...), p.Tags...) {
+				if !seen[t] {
+					seen[t] = true
+					tags = append(tags, t)
+				}
+			}
 			sort.Strings(tags)
 			desc := map[string]interface{}{"html": j.html, "page": pi, "tree": p.Tree, "impl_events": p.Impl}
 			if j.name != "" {
